@@ -243,6 +243,7 @@ class FnTranslator:
         self.loop_texts = []                    # loop defs in emission order
         self.pre_conjuncts = []
         self.guard_calls = []                   # the ast.Call nodes turned into precondition conjuncts
+        self.inline_checks = []                 # tests of `if <test>: raise ...` in the head, likewise
         self.vars = {}                          # python name -> type (params + locals), insertion = field order
         self.params = []                        # lean parameter list: (lean name, type), call order
         self.self_name = None
@@ -330,6 +331,7 @@ class FnTranslator:
                 # is the identity on an Int parameter, so the condition sees the values the caller passed)
                 env = {n: (mangle(n), self.vars[n]) for n in pnames}
                 self.pre_conjuncts.append('!decide (%s)' % ExprTr(self, env_override=env).cond(st.test))
+                self.inline_checks.append(st.test)
                 body = body[1:]
             else:
                 break
